@@ -20,12 +20,17 @@ OBLIGATIONS = ['PGA.Scheme.' + t for t in [
     'PGA.Pipeline.' + t for t in P.OBLIGATIONS_C04]
 RULE = ('cases = (scheme, A, B[, C]): all ordered pairs (incl. self-pairs) from a pool of fixed and grown molecules per scheme, '
         'some triples, pairs with an out-of-vocabulary component (failure propagation), for the nine shipped schemes. '
-        'distinct = distinct (scheme, A, B); non-trivial = both components have >= 2 heavy atoms or one fails.')
+        'distinct = distinct (scheme, A, B); non-trivial = both components have >= 2 heavy atoms or one fails. '
+        'Pipeline step (C04 ∘ C01/C20/C07): for a bounded number of these pairs per library the whole call chain '
+        'lib.Estimate(lib.GetDescriptors(x), "thermochem") is run on A, B and A.B at three temperatures (reference temperature, a table knot, '
+        'a random one) — on the shipped libraries and on one variant per library (a descriptor cut from the uncertainty basis, two '
+        'descriptors given disjoint ranges) that reaches the ValueError / AssertionError stages.')
 ASSUMPTIONS = ['A-graph for mixtures: RDKit\'s explicit-H graph of "A.B" is the disjoint union of the graphs of A and B renumbered by an explicit '
                'permutation (heavy atoms of all parts first, then the hydrogens part by part): atoms identical, bonds identical as a multiset '
                '(listed in another order), rings in the same order — hypothesis MolIso of C04_decompose_mixture, measured on every mixture of the '
                'full tie (lib_scheme.mixture_is_union); the exceptions (bridged bicycles whose symmetrised extra ring RDKit lists last) are counted']
-TRUSTED = []
+TRUSTED = ['pipeline step: the constituents\' own correlation values at T are data of the composed model (evaluated by the real per-group '
+           'objects, handed over as exact dyadic rationals), as in C01']
 
 
 def run(ctx):
@@ -214,7 +219,12 @@ LEVEL_TEXT = ('Lean 4 theorems: for the end-to-end model decompose and all well-
               '(C04_decompose_union, C04_decompose_mixture) — through: every pattern the reader returns is connected (C04_load_connected), an embedding of a '
               'connected pattern lies in one component (C04_embeds_union), the Benson perception works per component (C04_aromatize_union), and additivity of the '
               'decomposition above the matcher (C04_descriptors_union; chain-free remaps; descriptor names separate from group names, checked per case). '
-              'The implementation is compared with itself on A.B vs A and B (relational oracle) and with the end-to-end model on the mixture\'s graph.')
+              'The implementation is compared with itself on A.B vs A and B (relational oracle) and with the end-to-end model on the mixture\'s graph. '
+              'Composition (Props/Pipeline.lean): for the composed model pipeline = estimate ∘ decompose, H/RT, Cp/R, S/R (with and without elemental '
+              'reference) and, in every unit, H, G, S, Cp of A ⊔ B are the sums of the components\' at every temperature (PIPE_mixture_additive, PIPE_dimensional); '
+              'the stage at which the pipeline of A ⊔ B stops is a fixed table of the stages of A and B (PIPE_mixture_failure); the validity range is the '
+              'intersection; x\'Mx gets the cross term 2 x_A\'M x_B (PIPE_mixture_quadratic_symmetric; additivity refuted). Tie: driver op pipe.estimate_batch '
+              'on the raw graphs vs the real call chain; oracles: additivity, failure propagation, range, cross term, count-weighted sum.')
 LEVEL_NOTE = ('Trusted: Lean kernel, standard axioms, RDKit\'s treatment of dot-disconnected SMILES (A-graph for mixtures: the mixture graph is the renumbered '
               'union of the component graphs — measured on every compared mixture). Explicit hypothesis: no molecule-level prefix in any pattern (holds for '
               'every pattern of the nine shipped schemes: table observation re-made each run from the live schemes through the model reader); no `*`, cap inactive.')
